@@ -5,6 +5,26 @@ import json, os, re
 
 ROOT = "/verif/seeded"
 TITLES = {
+    "C01-r5": "set_all_flags stores through a new mask constant FLAG_STATUS = 0CD5h that wrongly contains DF: every ADD..DEC clears the direction flag",
+    "C02-r5": "RCL/RCR mask the count with 1Fh before the modulo (80186 behaviour): counts of 32 and more rotate by the wrong amount",
+    "C03-r5": "word IMUL compares the product's upper half with the sign extension of the *old* AX (helper shared with CWD): CF/OF wrong when the low word's sign differs from the multiplicand's",
+    "C04-r5": "assembler: a segment-overridden based-indexed operand is emitted with displacement 0 (`es[bx,si,5]` -> `es:[bx,si,0]`)",
+    "C05-r5": "`pop <reg>` loads the register before advancing SP: `pop sp` ends as popped word + 2",
+    "C06-r5": "LOOP/LOOPE/LOOPNE decrement CX in i16: CX = 8000h aborts on overflow",
+    "C07-r5": "the driver finishes a repeated line in an inner loop and drops its last outcome: the line is issued once more, a ZF-terminated REPE/REPNE restarts",
+    "C08-r5": "the driver caches the target of a jmp/call line and skips the interpreter the second time: a repeated `call` pushes no return index",
+    "C09-r5": "SHR computes `val >> num` in the operand's own width: a count equal to the width aborts",
+    "C10-r4": "forward references kept in a BTreeMap keyed by position: jumps from different macro expansions collide, an undefined target passes the label check",
+    "C11-r4": "comment stripping regex rewritten to respect quotes: a comment with an odd number of `\"` is not removed (or swallowed into a string)",
+    "C12-r5": "loader `set n` is skipped when DS already equals n, and with it the restart of the offset counter; the assembler still restarts its own",
+    "C13-r4": "`!insert(..)` then `len() >= 64`: the nesting limit silently drops from 64 to 63 levels",
+    "C14-r4": "a `call` of a name defined later is parked with the forward jumps and resolved against labels *or* procedures: `call <label>` and `jmp <procedure>` are accepted",
+    "C15-r4": "`nop` is accepted and emitted without a source-map entry: the driver's map lookup for the last lines hits None (abort)",
+    "C16-r4": "the driver terminates the text with a newline only *after* the line table was built from it: messages about an unterminated last line show the line before",
+    "C17-r5": "`print mem a -> b` rejects `start >= end`: the one-byte range `a -> a` prints nothing",
+    "C18-r5": "AH=0Ah stores the line with one `copy_from_slice` into `mem[data..data+n]`: a buffer crossing FFFFFh aborts instead of wrapping",
+    "C19-r4": "the recursion diagnostic lists the open expansions by iterating the HashSet: the text differs from run to run",
+    "C20-r4": "user_interface returns a bool instead of exiting; the INT 3 call site ignores it: q / end of input at a breakpoint prompt does not stop the emulator",
     "C04-r1": "make_valid_address wraps with one subtraction guarded by `> MB` instead of `% MB`: exactly 1 MB (FFFFh:0010h) stays 1048576",
     "C07-r1": "word MOVS takes its high byte at physical address+1 instead of offset+1: differs when SI/DI = FFFFh",
     "C13-r1": "all parameters replaced in one pass with one regex `\\ba|b\\b` — the alternation is not grouped",
